@@ -9,7 +9,8 @@ Open Scope Qc_scope.
    permutation of the model's variables, possibly with columns the model does not know; for an
    unlabelled matrix the labels are 0, 1, ...) and the row's values r_vals in that order. *)
 Record row := mkRow {
-  r_vals : list Qc;
+  r_ls : list label;        (* this sample's OWN label order (lists / iterators of dicts or labelled rows); = k_ls for a matrix *)
+  r_vals : list Qc;         (* its values in that order *)
   r_data : list (Qc * Qc * Qc * Qc);        (* iter_constraint_data: lhs_energy, rhs_energy, activity, violation *)
   r_viol : list (nat * Qc);                 (* violations() *)
   r_viol_clip : list (nat * Qc);            (* iter_violations(clip=True) *)
@@ -60,7 +61,7 @@ Definition raw_tied (n : nat) (xm : xcqm) (o : obs) (lhs : list obs) : bool :=
 Definition lhs_of (d : Qc * Qc * Qc * Qc) : Qc := let '(a, _, _, _) := d in a.
 
 Definition row_ok (c : case) (m : cqm) (r : row) : bool :=
-  let s := row_sample (k_ls c) (r_vals r) in
+  let s := row_sample (r_ls r) (r_vals r) in
   let atol := k_atol c in let rtol := k_rtol c in
   (* spec *)
   list_eqb nq_eqb (r_viol r) (spec_violations m s)
@@ -80,7 +81,7 @@ Definition row_ok (c : case) (m : cqm) (r : row) : bool :=
   && Bool.eqb (r_check_feasible r) (check_feasible m s rtol atol)
   (* code-shaped evaluation of the left-hand sides: raw expression state, label lookups in the matrix's columns *)
   && option_eqb (list_eqb q4_eqb) (option_map (map datum_tuple)
-                   (x_iter_constraint_data (xm_pvars (k_x c)) (xm_cons (k_x c)) (k_ls c) (r_vals r)))
+                   (x_iter_constraint_data (xm_pvars (k_x c)) (xm_cons (k_x c)) (r_ls r) (r_vals r)))
                 (Some (r_data r)).
 
 Definition vec_ok (atol rtol : Qc) (m : cqm) (samples : list sample) (garb : list bool)
@@ -98,14 +99,15 @@ Definition xrow_ok (c : case) (m : cqm) (r : xrow) : bool :=
 
 Definition check (c : case) : bool :=
   let m := case_cqm c in
-  let samples := map (fun r => row_sample (k_ls c) (r_vals r)) (k_rows c) in
+  let samples := map (fun r => row_sample (r_ls r) (r_vals r)) (k_rows c) in
   let n := length (m_cons m) in
   raw_tied (k_n c) (k_x c) (k_obj c) (map (fun k => fst (fst (fst k))) (k_cons c))
   && forallb (row_ok c m) (k_rows c)
   (* the objective column: definition and code-shaped *)
   && list_eqb Qc_eqb (k_obj_en c) (map (energy (m_obj m)) samples)
   && option_eqb (pair_eqb (list_eqb Qc_eqb) (list_eqb (list_eqb Qc_eqb)))
-       (x_vec_inputs (k_x c) (k_ls c) (map r_vals (k_rows c)))
+       (* the matrix as_samples builds: every row re-aligned to the labels of the first (k_ls) *)
+       (x_vec_inputs (k_x c) (k_ls c) (align_rows (k_ls c) (map (fun r => (r_ls r, r_vals r)) (k_rows c))))
        (Some (k_obj_en c,
               map (fun j => map (fun r => lhs_of (nth j (r_data r) (0, 0, 0, 0))) (k_rows c))
                   (seq 0 (length (k_cons c)))))
